@@ -35,6 +35,29 @@ UNK = _Unknown()
 IDENTITY_CALLS = ("cast", "typing.cast")
 
 
+def _utf8(v):
+    if isinstance(v, bytes) or v is None:
+        return v
+    if isinstance(v, str):
+        return v.encode("utf-8")
+    raise q.NotFoldable("utf8 of %r" % (v,))
+
+
+def _to_str(v):
+    if isinstance(v, str) or v is None:
+        return v
+    if isinstance(v, bytes):
+        try:
+            return v.decode("utf-8")
+        except UnicodeDecodeError:
+            raise q.NotFoldable("undecodable")
+    raise q.NotFoldable("to_unicode of %r" % (v,))
+
+
+# tornado.escape conversions (documented behaviour: bytes/None pass through utf8, str/None pass through to_unicode)
+TEXT_CONVERSIONS = {"utf8": _utf8, "native_str": _to_str, "to_unicode": _to_str, "_unicode": _to_str}
+
+
 class _Prep(ast.NodeTransformer):
     """``cast(T, x)`` -> ``x``; ``p[<const>]`` -> a Name whose id is the text
     ``p[<const>]`` (so that bindings such as ``start_line[1]`` can be looked up)."""
@@ -199,6 +222,16 @@ def _fold3(e: ast.AST, known: Dict[str, object]):
         return last
     if isinstance(e, ast.UnaryOp) and isinstance(e.op, ast.Not):
         return not _fold3(e.operand, known)
+    if isinstance(e, ast.Call) and q.call_attr(e) in TEXT_CONVERSIONS and len(e.args) == 1 and not e.keywords:
+        v = _fold3(e.args[0], known)
+        return TEXT_CONVERSIONS[q.call_attr(e)](v)
+    if isinstance(e, ast.BinOp):
+        # operands may contain conversions / three-valued sub-expressions
+        l, r = _fold3(e.left, known), _fold3(e.right, known)
+        try:
+            return q.fold(ast.BinOp(left=ast.Constant(value=l), op=e.op, right=ast.Constant(value=r)), {})
+        except q.NotFoldable:
+            raise
     return q.fold(e, known)
 
 
@@ -358,7 +391,12 @@ def default_transfer(n: Node, env: Dict[str, object], known_self_methods: Dict[s
         else:
             d = q.dotted(st.target)
             if d:
-                _bind(env, d, UNK)
+                cur = env.get(d, UNK)
+                rhs = try_fold(st.value, env)
+                val = UNK
+                if cur is not UNK and rhs is not UNK and isinstance(cur, (int, str, bytes)) and not isinstance(cur, bool):
+                    val = try_fold(ast.BinOp(left=ast.Constant(value=cur), op=st.op, right=ast.Constant(value=rhs)), {})
+                _bind(env, d, val)
     elif isinstance(st, ast.Delete):
         for t in st.targets:
             if isinstance(t, ast.Subscript):
